@@ -127,6 +127,7 @@ type egKey[E elgamal.FiniteCyclicGroupElement[E, S], S algebra.PrimeFieldElement
 
 	fresh   map[int]*elgamal.Ciphertext[E, S]
 	cache   map[string]*egState[E, S]
+	cached  map[string]bool
 	opCount map[string]int
 	special map[string]int
 	seenMu  map[string]struct{}
@@ -153,7 +154,7 @@ func newEGKey[E elgamal.FiniteCyclicGroupElement[E, S], S algebra.PrimeFieldElem
 	q := c.q
 	qm1 := new(big.Int).Sub(q, bi(1))
 	k := &egKey[E, S]{ctx: c, name: c.name + "/a=" + aName, a: a, sk: sk, pk: sk.Public(), depth: depth,
-		fresh: map[int]*elgamal.Ciphertext[E, S]{}, cache: map[string]*egState[E, S]{}, opCount: map[string]int{}, special: map[string]int{}, seenMu: map[string]struct{}{}, seenRho: map[string]struct{}{}}
+		fresh: map[int]*elgamal.Ciphertext[E, S]{}, cache: map[string]*egState[E, S]{}, cached: map[string]bool{}, opCount: map[string]int{}, special: map[string]int{}, seenMu: map[string]struct{}{}, seenRho: map[string]struct{}{}}
 	k.plains = []namedInt{
 		{"O", bi(0)}, {"G", bi(1)}, {"2G", bi(2)}, {"-G", qm1}, {"hG", new(big.Int).Rsh(q, 1)}, {"(h+1)G", new(big.Int).Add(new(big.Int).Rsh(q, 1), bi(1))},
 		{"wG", new(big.Int).Mod(streamInt("eg/plain/"+c.name, 320), q)},
@@ -410,7 +411,11 @@ func (k *egKey[E, S]) build(hist []int) (*egState[E, S], bool) {
 	}
 	ns, ok := k.step(par, hist[len(hist)-1])
 	if ok && len(hist) < k.depth {
-		k.cache[string(histKey(hist))] = ns
+		// only the first history that reaches a state is ever extended by the search (same key as Canon)
+		if c := k.canon(ns, hist); c == "" || !k.cached[c] {
+			k.cached[c] = true
+			k.cache[string(histKey(hist))] = ns
+		}
 	}
 	return ns, ok
 }
@@ -490,7 +495,7 @@ func (k *egKey[E, S]) invariant(x *engine.X, s *egState[E, S], hist []int) {
 }
 
 func (k *egKey[E, S]) runBFS(budget time.Duration) {
-	if f := os.Getenv("VERIF_C16_ONLY"); f != "" && !strings.Contains("elgamal/bfs/"+k.name, f) { // DEV
+	if f := os.Getenv("VERIF_C16_ONLY"); f != "" && !strings.Contains("elgamal/bfs/"+k.name, f) {
 		return
 	}
 	sec := engine.BFS(engine.BFSOpts[*egState[E, S]]{
@@ -506,7 +511,7 @@ func (k *egKey[E, S]) runBFS(budget time.Duration) {
 	sec.Note("key %s: depth %d = 1 Encrypt + %d homomorphic steps; %d operations per state (each through PublicKey and SecretKey)", k.name, k.depth, k.depth-1, k.nOps)
 	sec.Note("transitions checked per operation family: %v", k.opCount)
 	sec.Note("distinct model plaintext logs %d, distinct model nonces %d; boundary hits %v", len(k.seenMu), len(k.seenRho), k.special)
-	k.cache = nil
+	k.cache, k.cached = nil, nil
 }
 
 // ---------------------------------------------------------------------------------------------------------------
@@ -612,15 +617,16 @@ func egPublicCases[E elgamal.FiniteCyclicGroupElement[E, S], S algebra.PrimeFiel
 
 // ---------------------------------------------------------------------------------------------------------------
 
-func egSections[E elgamal.FiniteCyclicGroupElement[E, S], S algebra.PrimeFieldElement[S]](c *egCtx[E, S], depth int) (ct func(), bfs []func()) {
+// egSections: depths[i] is the BFS depth for secret i of {2, q-1, w}.
+func egSections[E elgamal.FiniteCyclicGroupElement[E, S], S algebra.PrimeFieldElement[S]](c *egCtx[E, S], depths [3]int) (ct func(), bfs []func()) {
 	c.selfTest()
 	ct = func() {
 		engine.Explore(egKeyCases(c), engine.Opts{Name: "elgamal/keys/" + c.name, Budget: engine.Budget(time.Minute, 5*time.Minute)})
 		engine.Explore(egPublicCases(c), engine.Opts{Name: "elgamal/public-key/" + c.name, Budget: engine.Budget(time.Minute, 5*time.Minute)})
 	}
-	for _, a := range []namedInt{{"2", bi(2)}, {"q-1", new(big.Int).Sub(c.q, bi(1))}, {"w", new(big.Int).Mod(streamInt("eg/key/"+c.name, 320), c.q)}} {
-		k := newEGKey(c, a.name, a.v, depth)
-		bfs = append(bfs, func() { k.runBFS(engine.Budget(150*time.Second, 30*time.Minute)) })
+	for i, a := range []namedInt{{"2", bi(2)}, {"q-1", new(big.Int).Sub(c.q, bi(1))}, {"w", new(big.Int).Mod(streamInt("eg/key/"+c.name, 320), c.q)}} {
+		k := newEGKey(c, a.name, a.v, depths[i])
+		bfs = append(bfs, func() { k.runBFS(engine.Budget(6*time.Minute, 35*time.Minute)) })
 	}
 	return ct, bfs
 }
@@ -634,9 +640,11 @@ func fpRef(c *refc.FpCurve) refOps {
 }
 
 func runElGamal() []func() {
-	depth := 3
+	// quick: depth 3 for the pseudo-random secret on k256 / ed25519, depth 2 elsewhere (BLS12-381 G1 pays two subgroup
+	// checks per ciphertext construction); thorough: depth 3 everywhere and depth 4 for k256 with the pseudo-random secret
+	dk, de, db := [3]int{2, 2, 3}, [3]int{2, 2, 3}, [3]int{2, 2, 2}
 	if engine.Thorough() {
-		depth = 4
+		dk, de, db = [3]int{3, 3, 4}, [3]int{3, 3, 3}, [3]int{3, 3, 3}
 	}
 	kc := &egCtx[*k256.Point, *k256.Scalar]{name: "k256", group: k256.NewCurve(), field: k256.NewScalarField(), q: conv.K256N, refMem: map[string]any{}, libMem: map[string]*k256.Point{},
 		comp: func(p *k256.Point) []byte { return p.ToCompressed() },
@@ -666,9 +674,9 @@ func runElGamal() []func() {
 		},
 		ref: fpRef(refc.BLS12381G1()),
 	}
-	ct1, b1 := egSections(kc, depth)
-	ct2, b2 := egSections(ec, depth)
-	ct3, b3 := egSections(bc, depth)
+	ct1, b1 := egSections(kc, dk)
+	ct2, b2 := egSections(ec, de)
+	ct3, b3 := egSections(bc, db)
 	ct1()
 	ct2()
 	ct3()
